@@ -838,6 +838,23 @@ func (e *Exec) havocKey(st *State, w string, tag string) {
 		g := w[6:]
 		if old, ok := st.Ghost[g]; ok {
 			st.Ghost[g] = e.havocLike(old, g+tag)
+			return
+		}
+		// not yet materialised on this path: obtain its (typed) initial value first
+		if strings.HasPrefix(g, "g_") {
+			st.Ghost[g] = e.havocLike(e.ghostGlobal(st, g), g+tag)
+			return
+		}
+		if strings.HasPrefix(g, "closed:") {
+			st.Ghost[g] = VBool{e.declare(g+tag, BoolSort)}
+			return
+		}
+		if i := strings.LastIndex(g, "#"); i > 0 {
+			if o := e.lazyObjs[g[:i]]; o != nil {
+				if _, known := ghostKinds[g[i+1:]]; known && ghostKinds[g[i+1:]] != "bytes" {
+					st.Ghost[g] = e.havocLike(e.ghostGet(st, o, g[i+1:]), g+tag)
+				}
+			}
 		}
 	}
 }
@@ -848,6 +865,10 @@ func (e *Exec) havocLike(v Value, name string) Value {
 		return VInt{T: e.declare(name, x.T.Sort), Signed: x.Signed}
 	case VBool:
 		return VBool{e.declare(name, BoolSort)}
+	case VErr:
+		return VErr{e.declare(name, BV32)}
+	case VTerm:
+		return VTerm{e.declare(name, x.T.Sort)}
 	}
 	return v
 }
